@@ -278,10 +278,10 @@ func checkC12(c *Ctx) {
 		return
 	}
 	const O1, L1, G1, W1 = "C12.O1", "C12.L1", "C12.G1", "C12.W1"
-	c.Rule(O1, "register/release pairing on all exits (same table, same key value)", 8)
-	c.Rule(L1, "refuse-and-insert in one exclusive critical section", 2)
-	c.Rule(G1, "dispatch invokes a handler only on the found arm of its lookup", 3)
-	c.Rule(W1, "who may write Scheme fields", 8)
+	c.Rule(O1, "register/release pairing on all exits (same table, same key value)", 4)
+	c.Rule(L1, "refuse-and-insert in one exclusive critical section", 1)
+	c.Rule(G1, "dispatch invokes a handler only on the found arm of its lookup", 1)
+	c.Rule(W1, "who may write Scheme fields", 4)
 	m := t.m
 
 	regs := t.registrations()
@@ -450,7 +450,7 @@ func checkC12(c *Ctx) {
 
 	// ------------------------------------------------------------------ O2: only the admitted call releases
 	const O2 = "C12.O2"
-	c.Rule(O2, "a release in the API entry is armed only after its own admission succeeded", 2)
+	c.Rule(O2, "a release in the API entry is armed only after its own admission succeeded", 1)
 	for _, r := range regs {
 		// refusing registrations (test-and-insert that returns an error when present)
 		refusing := false
@@ -548,10 +548,10 @@ func checkC12(c *Ctx) {
 	// session-keyed state (the three tables, dkgRunning) may be written anywhere: pairing is O1's business and
 	// locking is C20's. W1 is about everything else: configuration must not be rewritten per session.
 	allowedWriters := map[string]map[string]bool{
-		"RBF":                {"(*threshold.Scheme).setup": true},
-		"SyncFactory":        {"(*threshold.Scheme).setup": true},
-		"StoredData":         {"(*threshold.Scheme).SetStoredData": true},
-		"Send":               {"threshold.SilentScheme": true},
+		"RBF":         {"(*threshold.Scheme).setup": true},
+		"SyncFactory": {"(*threshold.Scheme).setup": true},
+		"StoredData":  {"(*threshold.Scheme).SetStoredData": true},
+		"Send":        {"threshold.SilentScheme": true},
 	}
 	st := t.scheme.Underlying().(*types.Struct)
 	var names []string
@@ -569,11 +569,11 @@ func checkC12(c *Ctx) {
 					continue
 				}
 			}
-			ok := allowedWriters[n][FuncName(fn)]
-			switch n {
-			case "dkgRunning", "syncsInProgress", "rbcInProgress", "messageClassifiers":
+			ok := allowedWriters[nameBack(n)][nameBack(FuncName(fn))]
+			switch f {
+			case t.fDKGRunning, t.fSyncTab, t.fRBCTab, t.fClsTab:
 				ok = true
-				if n != "dkgRunning" && fn != t.setup {
+				if f != t.fDKGRunning && fn != t.setup {
 					ok = false // the tables themselves are only ever replaced by setup
 				}
 			}
